@@ -292,7 +292,23 @@ impl<'p, 'a> Evaluator<'a, 'p> {
                                 }
                             }
                             PendingThunk::Call { func, args } => {
-                                self.execute_call(&func.view(), args);
+                                let func = func.view();
+                                if args.len() == func.params.order.len() {
+                                    self.execute_call(&func, args);
+                                } else {
+                                    // The call was created without looking at the
+                                    // parameters of the function (e.g. by `std.map`),
+                                    // check the arguments and bind the defaults now.
+                                    let (_, func_env) = self.get_func_info(&func);
+                                    let args: Vec<_> = args.iter().map(Gc::view).collect();
+                                    let args = self.check_call_thunk_args(
+                                        &func.params,
+                                        &args,
+                                        &[],
+                                        func_env,
+                                    )?;
+                                    self.execute_call(&func, args);
+                                }
                             }
                         }
                     }
